@@ -202,6 +202,26 @@ def oracle(case):
                 e = np.asarray(e.matrix if q == "cm" else e)
                 if not np.array_equal(v[idx], e, equal_nan=True):
                     return f"{q}: element {idx} of the vectorised result {v[idx].tolist()} differs from the scalar call {e.tolist()} (arg {float(a[idx])!r}, kw {kw})"
+        # histories: the same array object with new contents, and a result that the caller overwrote, must not influence later calls
+        if shape != () and n > 0:
+            val = lambda r_: np.array(np.asarray(r_.matrix if q == "cm" else r_), copy=True)
+            fresh = sa.Scores(pos.copy(), neg.copy(), nb_easy_pos=case["ep"], nb_easy_neg=case["en"], score_class=case["sc"], equal_class=case["ec"])
+            w = np.array(arg, dtype=float)
+            alt = np.roll(w.reshape(-1), 1).reshape(shape) + (0.25 if q.startswith("threshold_at_") else 0.5)
+            getattr(s, q)(w, **kw)
+            w[...] = alt
+            h2 = getattr(s, q)(w, **kw)
+            e2 = val(getattr(fresh, q)(alt.copy(), **kw))
+            if not np.array_equal(val(h2), e2, equal_nan=True):
+                return f"{q}: after the caller changed the contents of the argument array in place, the call returned {val(h2).tolist()} instead of {e2.tolist()} (stale result)"
+            tgt_arr = h2.matrix if q == "cm" else h2
+            if isinstance(tgt_arr, np.ndarray) and tgt_arr.flags.writeable:
+                tgt_arr[...] = -7
+                h3 = val(getattr(s, q)(w, **kw))
+                if not np.array_equal(h3, e2, equal_nan=True):
+                    return f"{q}: after the caller overwrote the returned array, repeating the query returned {h3.tolist()} instead of {e2.tolist()}"
+            if not same_snap(before, snap()):
+                return f"{q} modified the Scores object"
         base = TH.ALIASES.get(q.replace("threshold_at_", ""))
         if base:
             tq = ("threshold_at_" if q.startswith("threshold_at_") else "") + base
@@ -249,7 +269,7 @@ def bounded(chk):
         for sc, ec in B.CONFIGS:
             for shape in SHAPES:
                 items.append({"pos": pos, "neg": neg, "ep": ep, "en": en, "sc": sc, "ec": ec, "shape": list(shape), "seed": len(items)})
-    chk.bounded["bound"] = f"{len(data)} datasets x 4 configurations x argument shapes {SHAPES}; every public deterministic query and alias; read-only flagged argument arrays; object snapshots; each vectorised element compared with the scalar call"
+    chk.bounded["bound"] = f"{len(data)} datasets x 4 configurations x argument shapes {SHAPES}; every public deterministic query and alias; read-only flagged argument arrays; object snapshots; each vectorised element compared with the scalar call; two-step histories (argument array rewritten in place between calls, returned array overwritten by the caller)"
     chk.bounded["rule"] = "enumerated shapes x datasets; non-trivial = array-shaped argument"
     run_bounded(chk, items, eval_items)
     chk.samples.append({"bounded-case": items[7]})
